@@ -1,8 +1,9 @@
 /* Family "counter" (C10).  Program "<init>:<thread>|<thread>..." with operations
-     +   nsync_counter_add (c, +1)      (only as leading operations of a thread; every thread
-                                         waits until all '+' of the program are done before its
-                                         first other operation, so the counter is never raised from
-                                         zero once anybody may have waited or seen zero)
+     +   nsync_counter_add (c, +1)      (anywhere; every WAIT of the program starts only after all
+                                         '+' are done, because nsync forbids raising the counter
+                                         from zero once a wait has been called -- raising it from
+                                         zero before that, e.g. between another thread's zeroing
+                                         decrement and the first wait, is legal and is generated)
      -   nsync_counter_add (c, -1)
      v   nsync_counter_value (c)
      w   nsync_counter_wait (c, no deadline)    wd  deadline D1    wp  deadline in the past
@@ -23,20 +24,22 @@ static struct call calls[MAXCALLS]; static int ncalls, stamp;
 static int zero_seen;
 
 static int ctr_setup (const char *program) {
-	int t, k, n, minus = 0, plus = 0, untimed = 0;
+	int t, k, n, minus = 0, plus = 0, untimed = 0, worst;
 	const char *colon = strchr (program, ':');
 	if (!colon) return -1;
 	init_value = atoi (program);
 	n = h_parse (colon + 1);
 	if (n < 1) return -1;
-	for (t = 0; t < n; t++) { int lead = 1; for (k = 0; k < h_nops[t]; k++) {
+	worst = init_value;
+	for (t = 0; t < n; t++) { int bal = 0, minbal = 0; for (k = 0; k < h_nops[t]; k++) {
 		const char *o = h_op[t][k];
-		if (!strcmp (o, "+")) { if (!lead) return -1; plus++; continue; }
-		lead = 0;
-		if (!strcmp (o, "-")) minus++;
+		if (!strcmp (o, "+")) { plus++; bal++; }
+		else if (!strcmp (o, "-")) { minus++; bal--; if (bal < minbal) minbal = bal; }
 		else if (!strcmp (o, "w")) untimed++;
 		else if (strcmp (o, "v") && strcmp (o, "wd") && strcmp (o, "wp") && strcmp (o, "n")) return -1;
-	} }
+	} worst += minbal; }
+	/* in no interleaving may the value be driven below zero */
+	if (worst < 0) return -1;
 	if (minus > init_value + plus) return -1;
 	if (untimed && minus != init_value + plus) return -1;
 	if (init_value + plus == 0) return -1;
@@ -57,7 +60,7 @@ MC_ORACLE static void end_call (int i, int ret, int was_zero_seen, unsigned bloc
 		if (ret != 0 && mc_now_ns () < calls[i].dl) mc_fail ("nsync_counter_wait returned non-zero (%d) before its deadline", ret);
 		if (was_zero_seen && blocks != 0) mc_fail ("a wait that started after the counter was seen at zero blocked (%u times)", blocks);
 	}
-	if (ret == 0) zero_seen = 1;
+	if (ret == 0 && plus_done) zero_seen = 1;   /* zero is final only once no '+' can follow */
 }
 MC_ORACLE static int plus_finished (void) { return ++plus_done_count == nplus; }
 MC_ORACLE static int zs (void) { return zero_seen; }
@@ -67,7 +70,7 @@ static void ctr_thread (int me) {
 	for (k = 0; k < h_nops[me]; k++) {
 		const char *o = h_op[me][k];
 		int i, r = 0, z; unsigned b = 0;
-		if (o[0] != '+' && !awaited) { mc_await (&plus_done); awaited = 1; }
+		if ((o[0] == 'w' || o[0] == 'n') && !awaited) { mc_await (&plus_done); awaited = 1; }
 		switch (o[0]) {
 		case '+': i = begin_call ('+', 0); r = (int) nsync_counter_add (c, 1); end_call (i, r, 0, 0); if (plus_finished ()) mc_flag_set (&plus_done, 1); break;
 		case '-': i = begin_call ('-', 0); r = (int) nsync_counter_add (c, -1); end_call (i, r, 0, 0); break;
